@@ -686,10 +686,16 @@ class Assembler:
 
     def emit_item(self, path, flags):
         fi, cands = self.src.find(path)
+        if not cands and "optional" in flags:
+            # an item that exists only in some builds (cfg)
+            self.log.append({"rule": "R1", "file": "", "line": 0, "note": f"item {path} does not exist in this build (cfg): skipped"})
+            return
         if not cands:
             raise ExtractError(f"lost anchor: item {path} not found in {fi.v.path}")
         v = fi.v
         cands = [c for c in cands if (c.kind == "impl") == ("impl" in flags)]
+        if not cands and "optional" in flags:
+            return
         if not cands:
             raise ExtractError(f"lost anchor: item {path} ({'impl' if 'impl' in flags else 'non-impl'}) not found")
         for it in cands:
@@ -1237,6 +1243,12 @@ impl core::ops::BitOr for {name} {{
                 self.emit("\n/*@L raw*/\n" + strip_vis(e[1]) + "\n/*@E*/\n")
             elif e[0] == "fn":
                 fs = e[1]
+                if fs.optional:
+                    try:
+                        self.find_fn(fs.path)
+                    except ExtractError:
+                        self.log.append({"rule": "R1", "file": "", "line": 0, "note": f"{fs.path} does not exist in this build (cfg): contract skipped"})
+                        continue
                 fi, it = self.find_fn(fs.path)
                 ensure_impl(fi, it)
                 self.emit_fn(fs, "home")
